@@ -87,8 +87,8 @@ static std::string dump(PDU& pdu) {
     o << "/" << kind_name(in);
     bytes ser = ip->serialize();
     size_t hl = size_t(ser[0] & 15) * 4;
-    size_t tl = (size_t(ser[2]) << 8) | ser[3];
-    if (tl > ser.size() || tl < hl) tl = ser.size();
+    // everything after the header (not the total-length field: it is 16 bits wide and the datagram may not fit it)
+    size_t tl = ser.size() < hl ? hl : ser.size();
     o << "/" << (tl - hl) << "/" << fnv(ser.data() + hl, tl - hl);
     return o.str();
 }
@@ -127,11 +127,17 @@ int main() {
             if (it == table.end()) return "bad-op";
             size_t off = std::stoul(w[2]), len = std::stoul(w[3]);
             if (off % 8 || off > 65528 || len > 65535) return "bad-op";
+            {   // the fragment itself must fit the 16-bit total length of its own header
+                const Dgram& d = it->second;
+                size_t a = std::min(off, d.payload.size()), e = std::min(off + len, d.payload.size());
+                if (20 + 4 * (off == 0 ? d.nopt : 0) + (e - a) > 65535) return "bad-op";
+            }
             wire = encode_ip(it->second, off, len, w[4] == "1", uint8_t(std::stoul(w[5])), off == 0 ? it->second.nopt : 0);
             eth = w[6] == "1";
         } else if (w[0] == "whole" && w.size() >= 4) {
             auto it = table.find(w[1]);
             if (it == table.end()) return "bad-op";
+            if (20 + 4 * it->second.nopt + it->second.payload.size() > 65535) return "bad-op";
             wire = encode_ip(it->second, 0, it->second.payload.size(), false, uint8_t(std::stoul(w[2])), it->second.nopt);
             eth = w[3] == "1";
         } else if (w[0] == "nonip") {
